@@ -119,9 +119,9 @@ def m_ident(I, st, callee, argv, depth, t, dty):
 
 
 def find_from_impl(I, to_ty, from_ty):
-    want = '<%s as std::convert::From<%s>>::from' % (to_ty, from_ty)
+    wants = ('<%s as std::convert::From<%s>>::from' % (to_ty, from_ty), '<%s as core::convert::From<%s>>::from' % (to_ty, from_ty))
     for b in I.suite.bodies.values():
-        if b.get('name') == 'from' and b['path'] == want:
+        if b.get('name') == 'from' and b['path'] in wants:
             return b
     return None
 
@@ -138,7 +138,7 @@ def convert(I, st, v, from_ty, to_ty, depth, t=None):
         yield st, v
         return
     b = find_from_impl(I, to_ty, from_ty)
-    if b is not None and b['crate'] in ('opaque_ke', 'suites', 'fixtures'):
+    if b is not None and (b.get('crate') in ('opaque_ke', 'suites', 'fixtures') or getattr(I.suite, 'name', '') == 'generic'):
         yield from I.run(b['id'], [v], st, depth + 1)
         return
     if to_ty == 'bool' and 'Choice' in from_ty:
